@@ -494,7 +494,7 @@ func SetHashKeyOrder(hash *SexpHash, keyOrd Sexp) error {
 
 	keys, isArr := keyOrd.(*SexpArray)
 	if !isArr {
-		return fmt.Errorf("must have SexpArray for keyOrd, but instead we have: %T with value='%#v'", keyOrd, keyOrd)
+		return fmt.Errorf("must have SexpArray for keyOrd, but instead we have: %T with value='%s'", keyOrd, keyOrd.SexpString(nil))
 	}
 	for _, key := range keys.Val {
 		hash.KeyOrder = append(hash.KeyOrder, key)
@@ -536,7 +536,7 @@ func GoMethodListFunction(env *Zlisp, name string, args []Sexp) (Sexp, error) {
 	}
 	h, isHash := args[0].(*SexpHash)
 	if !isHash {
-		return SexpNull, fmt.Errorf("hash/record required, but saw type %T/val=%#v", args[0], args[0])
+		return SexpNull, fmt.Errorf("hash/record required, but saw type %T/val=%s", args[0], args[0].SexpString(nil))
 	}
 	if h.NumMethod != -1 {
 		// use cached results
@@ -656,7 +656,7 @@ func GoFieldListFunction(env *Zlisp, name string, args []Sexp) (Sexp, error) {
 	}
 	h, isHash := args[0].(*SexpHash)
 	if !isHash {
-		return SexpNull, fmt.Errorf("hash/record required, but saw %T/val=%v", args[0], args[0])
+		return SexpNull, fmt.Errorf("hash/record required, but saw %T/val=%s", args[0], args[0].SexpString(nil))
 	}
 
 	if !h.GoStructFactory.hasShadowStruct {
